@@ -96,10 +96,16 @@ def two_phase(ctx, pfx, A, ev, chain0, nc, nd, sp, loops, steps, out_pick, dim_t
         return None
     ok_ = outs[0]
     lh = l2.lh[ok_]
-    rowi = T.sub(ev.t(l2.elem), nd) if l2.elem is not None else l2.var      # element nd + k stored at row k, or element k at row k
-    exps = [T.app('upd', lh, T.app('row_mut', r_), v) for r_ in (rowi, l2.var) for v in (T.app('from_shape', T.app('len', res2), res2), res2)]
-    row_is_k = rowi is l2.var or ev.t(l2.elem) is l2.var
-    ctx.check(pfx + '.guard_row_value', A, 'store', any(l2.next[ok_] is e for e in exps) and row_is_k, expected='collection iteration k stores the state returned by its step at row k (unconditionally)',
+    vals2 = (T.app('from_shape', T.app('len', res2), res2), res2)
+    try:
+        e2 = ev.t(l2.elem) if l2.elem is not None and not isinstance(l2.elem, (Ref, Tup)) else None
+    except Exception:
+        e2 = None
+    rowi = T.sub(e2, nd) if e2 is not None else l2.var      # element nd + k stored at row k, or element k at row k
+    exps_k = [T.app('upd', lh, T.app('row_mut', l2.var), v) for v in vals2]                 # row k written at iteration k (whatever the loop walks)
+    exps_i = [T.app('upd', lh, T.app('row_mut', rowi), v) for v in vals2]
+    row_is_k = rowi is l2.var or e2 is l2.var
+    ctx.check(pfx + '.guard_row_value', A, 'store', any(l2.next[ok_] is e for e in exps_k) or (any(l2.next[ok_] is e for e in exps_i) and row_is_k), expected='collection iteration k stores the state returned by its step at row k (unconditionally)',
               found=show(l2.next[ok_])[:300], sp=l2.sp, why='row r holds the state after n_discard + r + 1 transitions')
     dimt = dim_terms or [T.app('len', T.app('core::MarkovChain::current_state', chain0))]
     ctx.eq(pfx + '.alloc', A, 'alloc', l2.init[ok_], T.app('zeros', T.tup(nc, dimt[0])), sp=sp, why='output has n_collect rows of the state dimension')
